@@ -53,6 +53,7 @@ Proof.
       injection He as <- <-; split; reflexivity.
   - intros n s i p H. destruct (ex_inner_cases n H) as [-> | ->]; unfold ex_exec_i, exec_i;
       rewrite exec_ng_leaf by reflexivity; apply ex_basic_nopause.
+  - intros n H. destruct (ex_inner_cases n H) as [-> | ->]; reflexivity.
 Qed.
 
 Lemma ex_nosent n s ins outs dec o : In n (g_nodes ex_gi) -> ex_exec_i n s ins = OOk outs dec -> ~ In (o, VSentinel) outs.
@@ -120,6 +121,7 @@ Proof.
     + unfold ex_exec_o, exec_o. rewrite exec_ng_leaf by reflexivity. apply ex_basic_nopause.
     + apply (wrapper_nopause 1 Sync ex_ft [] ex_subs ex_gi None ex_ift [] [] ex_w eq_refl ex_sub_eq). exact ex_inner_nopause.
     + unfold ex_exec_o, exec_o. rewrite exec_ng_leaf by reflexivity. apply ex_basic_nopause.
+  - intros n H. destruct (ex_outer_cases n H) as [-> | [-> | ->]]; reflexivity.
 Qed.
 
 Lemma ex_flat_cases n : In n (g_nodes ex_flat) ->
@@ -145,6 +147,7 @@ Proof.
       injection He as <- <-; split; reflexivity.
   - intros n s i p H. destruct (ex_flat_cases n H) as [-> | [-> | [-> | ->]]];
       unfold ex_flat_exec; rewrite flat_exec_leaf by reflexivity; simpl; apply ex_basic_nopause.
+  - intros n H. destruct (ex_flat_cases n H) as [-> | [-> | [-> | ->]]]; reflexivity.
 Qed.
 
 (* the theorem, instantiated: whatever the runners, budgets and logs, completed nested and flat runs agree *)
